@@ -97,4 +97,17 @@ theorem source_time_decoders_total (fuel : Nat) (j : Gen.GoFrame.jt808_JTMessage
    fun t => (Go.X.isOk_iff _).mp (Gen.GoModel.P0x9206_Parse_total fuel t j hf),
    fun t => (Go.X.isOk_iff _).mp (Gen.GoModel.T0x1005_Parse_total fuel t j hf)⟩
 
+/-- **The active-safety decoders as translated from the source never panic**: the resource list 0x1205 (a 32-bit count,
+28-byte records with two BCD timestamps each — loop invariant: record `n` lies at `6+28n … 34+28n` inside a body of
+`6+28·total` bytes), the attachment announcement 0x1210 (identifier, alarm-sign block, attachment list — every dialect)
+and the upload command 0x9208 (server address of `body[0]` bytes, ports, alarm-sign block, alarm ID — every dialect)
+return a value for every body and every receiver. -/
+theorem source_active_safety_decoders_total (fuel : Nat) (j : Gen.GoFrame.jt808_JTMessage) (hf : j.Body.length + 256 < fuel) :
+    (∀ t : Gen.GoModel.model_T0x1205, ∃ r, Gen.GoModel.model_T0x1205_Parse fuel t j = .ok r) ∧
+    (∀ t : Gen.GoModel.model_T0x1210, ∃ r, Gen.GoModel.model_T0x1210_Parse fuel t j = .ok r) ∧
+    (∀ t : Gen.GoModel.model_P0x9208, ∃ r, Gen.GoModel.model_P0x9208_Parse fuel t j = .ok r) :=
+  ⟨fun t => (Go.X.isOk_iff _).mp (Gen.GoModel.T0x1205_Parse_total fuel t j (by omega)),
+   fun t => (Go.X.isOk_iff _).mp (Gen.GoModel.T0x1210_Parse_total fuel t j hf),
+   fun t => (Go.X.isOk_iff _).mp (Gen.GoModel.P0x9208_Parse_total fuel t j (by omega))⟩
+
 end JT.C03
